@@ -2,9 +2,10 @@
   Property C06, part 2: facts about the translated schemas that the semantics relies on
   (all by kernel evaluation over the regenerated `P` terms).
 -/
-import OdfModel.GrammarData
+import OdfModel.Grammar
+import OdfModel.Generated.GrammarSchema
 namespace OdfModel.Props.C06
-open OdfModel OdfModel.Grammar OdfModel.GrammarData OdfModel.Generated
+open OdfModel OdfModel.Grammar OdfModel.Generated OdfModel.Generated.GrammarSchema
 
 set_option maxRecDepth 100000 in
 /-- the fuel of `mayElems / mayText / mayAttrs / mustAttrs` never runs out on the content of any
@@ -28,9 +29,6 @@ set_option maxRecDepth 100000 in
 /-- `notAllowed` does not occur (so `mustAttrs` needs no unit for `choice`) -/
 theorem no_notAllowed :
     (schema.defs.all.any hasNotAllowed || schema.elems.all.any fun d => hasNotAllowed d.content) = false := by decide +kernel
-
-/-- interned ids never collide with the wildcard id -/
-theorem ids_below_any : GrammarTables.nElems < ANY ∧ GrammarTables.nAttrs < ANY := by decide +kernel
 
 set_option maxRecDepth 100000 in
 /-- every element name the schemas declare has an id below `nSchemaElems`, every attribute id is
